@@ -98,6 +98,7 @@ struct World {
     // preemption: ISR ticks injected at the k-th preemption point of the current operation
     std::vector<uint32_t> preemptAt; uint32_t ppCount = 0; uint32_t ppFired = 0; bool inIsr = false;
     std::function<void(int site)> onPreemptPoint;   // optional monitor (C08 conservation walk)
+    std::function<void(uint8_t)> onHbConsEvent;         // application code inside the CONmtHbConsEvent callback
     std::function<void(const Frame &)> onPdoTransmit;   // application code inside the COPdoTransmit callback (may call the stack's API)
     std::function<void(void *)> tmrUserCb;          // application timer callback script
     std::function<void(CO_CSDO *, uint16_t, uint8_t, uint32_t)> csdoCb;
